@@ -150,6 +150,32 @@ pub fn generate_swaps(num_vars: usize, rollback: bool) -> Vec<u8> {
     swaps
 }
 
+/// Verification hook (guard: `--cfg volute_verif`): records, per thread, the swap and flip
+/// sequences the canonization walks were actually given, so that a checker can validate
+/// that they visit every group element exactly once. Read-only with respect to the library.
+#[cfg(volute_verif)]
+pub mod verif_hook {
+    use std::cell::RefCell;
+
+    thread_local! {
+        static LAST: RefCell<(Option<Vec<u8>>, Option<Vec<u8>>)> = const { RefCell::new((None, None)) };
+    }
+
+    pub(crate) fn record(swaps: Option<&[u8]>, flips: Option<&[u8]>) {
+        LAST.with(|l| *l.borrow_mut() = (swaps.map(|s| s.to_vec()), flips.map(|s| s.to_vec())));
+    }
+
+    /// Forget the last recorded sequences of this thread
+    pub fn clear() {
+        LAST.with(|l| *l.borrow_mut() = (None, None));
+    }
+
+    /// Swap and flip sequences given to the last canonization walk run on this thread
+    pub fn last_sequences() -> (Option<Vec<u8>>, Option<Vec<u8>>) {
+        LAST.with(|l| l.borrow().clone())
+    }
+}
+
 // Run all swaps on the P canonization, and return the index of the best result
 pub fn p_canonization_ind(
     num_vars: usize,
@@ -157,6 +183,8 @@ pub fn p_canonization_ind(
     best: &mut [u64],
     all_swaps: &[u8],
 ) -> usize {
+    #[cfg(volute_verif)]
+    verif_hook::record(Some(all_swaps), None);
     best.clone_from_slice(table);
     let mut best_ind = 0;
     let mut ind = 0;
@@ -178,6 +206,8 @@ pub fn n_canonization_ind(
     best: &mut [u64],
     all_flips: &[u8],
 ) -> usize {
+    #[cfg(volute_verif)]
+    verif_hook::record(None, Some(all_flips));
     best.clone_from_slice(table);
     let mut best_ind = 0;
     let mut ind = 0;
@@ -202,6 +232,8 @@ pub fn npn_canonization_ind(
     all_swaps: &[u8],
     all_flips: &[u8],
 ) -> usize {
+    #[cfg(volute_verif)]
+    verif_hook::record(Some(all_swaps), Some(all_flips));
     best.clone_from_slice(table);
     let mut best_ind = 0;
     let mut ind = 0;
